@@ -51,25 +51,26 @@ Theorem C01_store_wf : forall cidx0 d0 store s, reach cidx0 d0 store s -> kinv s
 Proof. exact reach_kinv. Qed.
 Print Assumptions C01_store_wf.
 
-(* C01_failure_justified — full statement; `seen s t` is the ghost flag "since t's LInvoke, in some
-   state (after some step) t's key differed from what t's request expects" (Model/KeySys.v: observe).
-   Engine-reported conflict aborts are excluded (the engine assumption of DESIGN.md §5), as are values
-   equal to the deletion marker (finding C03-F1 makes a live key read as absent). Not proved: see
-   props/C01.json "gaps"; the oracle `justified` checks it on every schedule case. *)
-Definition C01_failure_justified_full_statement : Prop :=
-  forall cidx0 d0 store ls, wf_store d0 store ->
-    Forall (fun l => match l with
-                     | LEngine _ EnvConflictAbort => False
-                     | LInvoke _ (RqCreate _ v) | LInvoke _ (RqUpdate _ v _) => v <> tombstone
-                     | _ => True end) ls ->
-    (forall k r v, In (r, v) (k_vers (store k)) -> k_idx (store k) = Some (r, false) -> v <> tombstone) ->
-    let s := krun cidx0 ls (kinit d0 store) in
-    forall t r, thr s t = PReturn r -> resp_cond_failed r = true ->
-      seen s t = true \/
-      (* an unguarded delete expects the key to stay as it found it: another commit on its key since its LInvoke *)
-      (exists k l2 l1 l0 t' q' a rev f v pred,
-         log s = l2 ++ EApplied t' q' k a rev f v pred :: l1 ++ EInvoke t (RqDelete k 0) :: l0 /\
-         Forall (fun e => match e with EInvoke t0 _ | EReturn t0 _ => t0 <> t | _ => True end) (l2 ++ l1)).
+(* C01_failure_justified. `seen s t` is the ghost flag "since t's LInvoke, in some state t's key differed
+   from what t's request expects" (Model/KeySys.v: observe); justified_at s t := seen s t = true, or — for an
+   unguarded delete, which expects the key to stay as it found it — another commit on its key since its LInvoke.
+   failure_justified_statement allowed :=
+     forall cidx0 d0 store ls, wf_store d0 store -> no_marker_store store ->
+       Forall (fun l => quiet_label l /\ allowed l) ls ->          (no engine-reported conflict abort: DESIGN §5;
+                                                                    no value equal to the deletion marker: C03-F1)
+       forall t r, thr (krun cidx0 ls (kinit d0 store)) t = PReturn r -> resp_cond_failed r = true ->
+         justified_at (krun …) t. *)
+Definition C01_failure_justified_full_statement : Prop := failure_justified_statement (fun _ => True).
+
+(* the faithful model refutes it (finding C01-F1, reproduced on the real code): a creator dealt 11 is refused
+   because the asynchronous repair re-stamped the key's tombstone at 12 — the key was deleted all the time *)
+Theorem C01_failure_justified_refuted : ~ failure_justified_statement (fun _ => True).
+Proof. exact failure_justified_refuted. Qed.
+Print Assumptions C01_failure_justified_refuted.
+
+(* the complement (label lists without asynchronous rewrites) is stated, not proved: see props/C01.json "gaps";
+   the oracle `justified` checks it on every schedule case *)
+Definition C01_failure_justified_except_rewrite_statement : Prop := failure_justified_except_rewrite.
 
 (* full statement of the oracle lemma for schedule cases — not proved (see "gaps") *)
 Definition C01_oracle_sound_full_statement : Prop :=
